@@ -8,6 +8,10 @@
 //! sweep <PROP> [--seed N] [--iters N] [--max-fail K] [--filter <substring>] [--cap N] [--list]
 //! sweep --self-test [--seed N] [--iters N]
 //! ```
+//! Witness line: `{"prop", "case", "inputs": {..hex..}, "got", "expected", "panic"[, "known"]}`.
+//! Lines carrying `"known"` (a finding id of /verif/known_findings.json such as `F12`, or a
+//! `triage:..` note, see `src/known.rs`) are printed but never counted.
+//!
 //! Exit codes of a sweep: 0 = at least one failure found (witness lines on stdout, one JSON object
 //! per line), 3 = none found, 2 = usage error. `--self-test`: 0 = every property ran clean,
 //! 1 = some property produced a failure, 2 = usage error.
@@ -15,6 +19,7 @@
 mod conv;
 mod ctx;
 mod generate;
+mod known;
 mod props;
 mod show;
 #[cfg(test)]
@@ -112,6 +117,8 @@ pub fn sweep(prop: &str, seed: u64, iters: usize, cap: usize, max_fail: usize, f
         }
         n += 1;
         c.begin_case(&case.name);
+        c.case_tag = known::tag_for(prop, &case.name);
+        c.known = c.case_tag;
         // a panic in the harness itself (outside `call`) must not kill the sweep silently
         let r = ctx::call(|| (case.run)(&mut c));
         if let Err(p) = r {
